@@ -1,0 +1,61 @@
+//go:build verif
+
+package language
+
+// Contracts for the expression language, checked by /verif/govc (contract-based deductive
+// verification). Comments only; compiled only under the build tag "verif".
+
+// ---- object kinds: every implementer of Object reports its own constant ---------------------------
+
+//@ func (*Number).Type
+//@   ensures result == ObjectTypeNumber
+//@ func (*Boolean).Type
+//@   ensures result == ObjectTypeBoolean
+//@ func (*Binary).Type
+//@   ensures result == ObjectTypeBinary
+//@ func (*Null).Type
+//@   ensures result == ObjectTypeNull
+//@ func (*Error).Type
+//@   ensures result == ObjectTypeError
+//@ func (*String).Type
+//@   ensures result == ObjectTypeString
+//@ func (*Map).Type
+//@   ensures result == ObjectTypeMap
+//@ func (*List).Type
+//@   ensures result == ObjectTypeList
+//@ func (*StringSet).Type
+//@   ensures result == ObjectTypeStringSet
+//@ func (*BinarySet).Type
+//@   ensures result == ObjectTypeBinarySet
+//@ func (*NumberSet).Type
+//@   ensures result == ObjectTypeNumberSet
+//@ func (*Function).Type
+//@   ensures result == ObjectTypeFunction
+
+// ---- C09: operand type preconditions of the typed comparison evaluators (checked at their call sites) ----
+
+//@ func evalNumberInfixExpression
+//@   requires typeis(left, "*Number") && typeis(right, "*Number")
+//@ func evalStringInfixExpression
+//@   requires typeis(left, "*String") && typeis(right, "*String")
+//@ func evalBinaryInfixExpression
+//@   requires typeis(left, "*Binary") && typeis(right, "*Binary")
+
+// ---- C09: the built-in functions take a fixed number of operands; Function.Call checks it ----------------
+
+//@ func attributeExists
+//@   requires len(args) == 1 && forall j int :: 0 <= j && j < len(args) ==> args[j] != nil
+//@ func attributeNotExists
+//@   requires len(args) == 1 && forall j int :: 0 <= j && j < len(args) ==> args[j] != nil
+//@ func attributeType
+//@   requires len(args) == 2 && forall j int :: 0 <= j && j < len(args) ==> args[j] != nil
+//@ func beginsWith
+//@   requires len(args) == 2 && forall j int :: 0 <= j && j < len(args) ==> args[j] != nil
+//@ func contains
+//@   requires len(args) == 2 && forall j int :: 0 <= j && j < len(args) ==> args[j] != nil
+//@ func objectSize
+//@   requires len(args) == 1 && forall j int :: 0 <= j && j < len(args) ==> args[j] != nil
+//@ func ifNotExists
+//@   requires len(args) == 2 && forall j int :: 0 <= j && j < len(args) ==> args[j] != nil
+//@ func listAppend
+//@   requires len(args) == 2 && forall j int :: 0 <= j && j < len(args) ==> args[j] != nil
